@@ -591,6 +591,12 @@ void bhkMalleableConstraint::Sync(NiStreamReversible& stream) {
 	subConstraint.Sync(stream);
 }
 
+void bhkMalleableConstraint::GetPtrs(std::set<NiPtr*>& ptrs) {
+	bhkConstraint::GetPtrs(ptrs);
+
+	subConstraint.GetPtrs(ptrs);
+}
+
 
 void bhkBallAndSocketConstraint::Sync(NiStreamReversible& stream) {
 	stream.Sync(ballAndSocket.translationA);
